@@ -38,7 +38,11 @@ def gen(rng):
                        "hasfn": rng.random() < 0.9})
     return {"form": rng.choice(["f", "f", "exec"]), "stages": stages, "input": rng.choice(["ok", "ok", "err", "err_falsy"]),
             "wrap": rng.choice([None, None, "proxy", "nocancel", "map"]), "pre": rng.random() < 0.3,
-            "cancel": rng.random() < 0.35, "env_threads": 1}
+            "cancel": rng.random() < 0.35, "env_threads": 1,
+            # which exception class a raising fn / error_fn uses (all of them are Exceptions: whatever fn raises is the outcome)
+            "exc_kind": rng.randrange(6),
+            # done-callbacks (some raising) somebody registered on the INTERMEDIATE futures before the next stage was chained on
+            "mid_cbs": [rng.choice([None, None, False, True]) for _ in range(n)]}
 
 
 def expected(p, exc_in, excs):
@@ -88,9 +92,11 @@ def execute(p, chooser):
             leaf = Future()
         exc_in = FalsyXE("input") if p["input"] == "err_falsy" else XE("input")
         obs["exc_in"] = exc_in
+        from concurrent.futures import InvalidStateError, CancelledError
+        kinds = [XE, InvalidStateError, CancelledError, StopIteration, TimeoutError, KeyError]
         for k, st in enumerate(p["stages"]):
-            obs["excs"][("fn", k)] = XE("fn%d" % k)
-            obs["excs"][("efn", k)] = XE("efn%d" % k)
+            obs["excs"][("fn", k)] = kinds[(p.get("exc_kind", 0) + k) % 6]("fn%d" % k)
+            obs["excs"][("efn", k)] = kinds[(p.get("exc_kind", 0) + k + 3) % 6]("efn%d" % k)
             obs["excs"][("inner", k)] = XE("inner%d" % k)
 
         def complete():
@@ -165,6 +171,12 @@ def execute(p, chooser):
                     ex = (Executors.with_flat_map if st["kind"] == "flat_map" else Executors.with_map)(Pass(cur), fn, **kw)
                 execs.append(ex)
                 cur = ex.submit(lambda: None)
+            mc = (p.get("mid_cbs") or [None] * 8)[k]
+            if mc is not None:
+                def midcb(f, raises=mc):
+                    if raises:
+                        raise RuntimeError("callback fault on an intermediate future")
+                cur.add_done_callback(midcb)
         out = cur
         obs["out"] = out
 
